@@ -139,7 +139,7 @@ assert len(ACTIONS) == 28
 
 # A-ABORT source field required by the action text (PS3.8 Tables 9-9): AA-1 service-user (0),
 # AA-8 service-provider (2).  AA-7 does not say.
-ABORT_SOURCE = {'AA-8': 2}
+ABORT_SOURCE = {'AA-8': 2, 'AA-1': 0}   # checked where the action itself builds the PDU (not for the user's A-ABORT request)
 
 # States in which ARTIM runs (Table 9-1..9-5 state definitions + actions that arm it)
 ARTIM_STATES = frozenset([2, 13])
